@@ -20,13 +20,16 @@ ASSUMPTIONS = ['CPython reference counting frees unreachable tensors promptly (o
 TRUSTED_BASE = ['harness/tprog.py']
 
 
-def chain(rng, depth):
+def chain(rng, depth, pos='first'):
+    """`pos`: the operand position through which the chain runs deep ('first', 'second', or alternating 'mixed')"""
     lines = [gen_dag.leaf_line((2,), [1.0, -0.5], True), gen_dag.leaf_line((2,), [0.5, 2.0], rng.chance(.5))]
     cur = 0
     nt = 2
     for k in range(depth):
         r = rng.random()
-        if r < .5: lines.append(f't op add {cur},1')
+        if pos == 'second' or (pos == 'mixed' and k % 2):
+            lines.append(f't op {"add" if r < .8 or k % 50 else "mul"} 1,{cur}')
+        elif r < .5: lines.append(f't op add {cur},1')
         elif r < .7: lines.append(f't op neg {cur}')
         elif r < .85: lines.append(f't op clone {cur}')
         else: lines.append(f't op add {cur},{cur}') if rng.chance(.3) else lines.append(f't op mul {cur},1') if k % 50 == 0 else lines.append(f't op add 1,{cur}')
@@ -72,6 +75,9 @@ def cases(rng, tier):
     depths = [10, 50, 200, 1000, 2000] if tier == 'quick' else [10, 50, 200, 1000, 2000, 3000, 5000]
     for d in depths:
         out.append(chain(rng, d))
+        if d >= 1000:
+            out.append(chain(rng, d, 'second'))
+            out.append(chain(rng, d, 'mixed'))
     for w in ([5, 60, 300] if tier == 'quick' else [5, 60, 300, 1000]):
         out.append(wide(rng, w))
     for _ in range(40 if tier == 'quick' else 600):
@@ -115,8 +121,9 @@ def runtime_residue(depth=50000, loop=100000):
         calls[0] += 1; return oc(s)
     x = sg.Tensor(np.array([1.0, 2.0]), requires_grad=True)
     y = x
-    for _ in range(depth):
-        y = y + 1.0
+    one = sg.Tensor(np.array([1.0, 1.0]))
+    for k in range(depth):          # the chain runs through the first operand, then the second, then alternates
+        y = (y + 1.0) if k < depth // 3 else sg.add(one, y) if k < 2 * depth // 3 or k % 2 else sg.add(y, one)
     BF.__call__ = call
     try:
         t0 = time.time()
